@@ -206,6 +206,10 @@ def run(tier):
     # every history of reads, validations, chunk requests and clear_error on one context (MC_Session): the validations judged
     from .. import session
     session.run_session(ck, "C09", "scan", tier, wd, rnd)
+    # the implementation-shaped model of the scan (ScanImpl): its invariants, its documented counterexamples, and real scans
+    # of members of its own family (cells of 16 KiB, blocks of 32 KiB) replayed on it by TLC (Trace_Scan)
+    from .. import scanimpl
+    scanimpl.run(ck, "C09", tier, rnd)
     ck.extra["rule"] = "one case = (on-disk state of a target, order of validation calls); region-state combinations, truncation points, over-long, wrong whole-data checksum, detached headers"
     ck.assumptions = ["per-chunk verdicts recomputed by the reference codec over the bytes actually present (absent bytes never match)"]
     shutil.rmtree(wd, ignore_errors=True)
